@@ -71,6 +71,7 @@ type LayerSpec struct {
 	Landmark    string
 	Desc        string
 	HasRoot     bool // the tar has an explicit root entry
+	Packed      bool // built with MinChunkSize: small files share a stream with the first chunk of a following multi-chunk file
 }
 
 // TarOpts is the tar domain used by C12/C15: the filesystem content is not what these
@@ -208,6 +209,91 @@ func pool(rng *prng.R, n int, rootMode int) ([]*LayerSpec, error) {
 	return res, nil
 }
 
+// BuildPacked builds a layer whose compressed streams are shared between files
+// (estargz.WithMinChunkSize): 3-5 directories, each with 2-5 small non-empty files around
+// one or two multi-chunk files (2-4 chunks of incompressible self-describing content), so
+// that the first chunk of a large file sits in the stream of the small files before it while
+// its later chunks have streams of their own. Names are chosen so that the large file sorts
+// before, between or after its small neighbours (the metadata stores list children in
+// different orders). landmark: LmPrefetch (whole groups prioritized in tar order: small
+// files followed by their large file) or LmNoPrefetch.
+func BuildPacked(rng *prng.R, chunk, minChunk int, comp, landmark string) (*LayerSpec, error) {
+	var ents []gen.Entry
+	next := rng.U64() | 1
+	file := func(name string, size int64) {
+		next += 2
+		ents = append(ents, gen.Entry{Name: name, Type: tar.TypeReg, Mode: 0o644, ModTime: 1500000000, Size: size, ContentID: next})
+	}
+	var groups [][]string
+	ng := rng.Range(3, 5)
+	for g := 0; g < ng; g++ {
+		dir := fmt.Sprintf("d%d", g)
+		ents = append(ents, gen.Entry{Name: dir + "/", Type: tar.TypeDir, Mode: 0o755, ModTime: 1500000000})
+		var names []string
+		nsmall := rng.Range(2, 5)
+		bigAt := rng.Range(1, nsmall) // at least one small file precedes the large one in tar order
+		for i := 0; i <= nsmall; i++ {
+			if i == bigAt {
+				n := dir + "/" + rng.PickS("a-big", "m-big", "z-big")
+				file(n, int64(rng.Range(2, 4)*chunk)-int64(rng.Intn(chunk/2)))
+				names = append(names, n)
+				if rng.Chance(1, 3) {
+					n2 := n + "2"
+					file(n2, int64(2*chunk)+int64(rng.Intn(chunk)))
+					names = append(names, n2)
+				}
+				continue
+			}
+			n := fmt.Sprintf("%s/%s%d", dir, rng.PickS("b-small", "n-small", "y-small"), i)
+			file(n, int64(rng.Range(10, 300)))
+			names = append(names, n)
+		}
+		groups = append(groups, names)
+	}
+	ls := &LayerSpec{Entries: ents, FS: gen.Model(ents), Landmark: landmark, Packed: true}
+	ls.Files = ls.FS.RegularFiles()
+	bo := blob.Opts{ChunkSize: chunk, MinChunkSize: minChunk, Compression: comp, Level: 1, Workers: 1}
+	switch landmark {
+	case LmPrefetch:
+		for _, gi := range rng.Perm(len(groups))[:rng.Range(1, 2)] {
+			ls.Prioritized = append(ls.Prioritized, groups[gi]...)
+		}
+		bo.Prioritized = ls.Prioritized
+	case LmNoPrefetch:
+	default:
+		return nil, fmt.Errorf("BuildPacked: landmark kind %q not supported", landmark)
+	}
+	b, err := blob.Build(gen.TarBytes(ents), bo)
+	if err != nil {
+		return nil, err
+	}
+	ls.Built = b
+	ls.Desc = fmt.Sprintf("packed landmark=%s %s chunk=%d minchunk=%d blob=%dB files=%d prioritized=%d", landmark, comp, chunk, minChunk, len(b.Blob), len(ls.Files), len(ls.Prioritized))
+	return ls, nil
+}
+
+// PackedPool builds n packed layers: MinChunkSize cycles through chunk/4, chunk, 2*chunk,
+// landmark kinds alternate, one in four is zstd:chunked.
+func PackedPool(rng *prng.R, n int) ([]*LayerSpec, error) {
+	var res []*LayerSpec
+	for i := 0; i < n; i++ {
+		lrng := rng.Derive(uint64(i))
+		chunk := lrng.Pick(1024, 2048, 4000)
+		minChunk := []int{chunk / 4, chunk, 2 * chunk}[i%3]
+		comp := "gzip"
+		if i%4 == 3 {
+			comp = "zstdchunked"
+		}
+		lm := []string{LmPrefetch, LmNoPrefetch}[(i/3)%2]
+		ls, err := BuildPacked(lrng, chunk, minChunk, comp, lm)
+		if err != nil {
+			return nil, fmt.Errorf("packed pool layer %d: %w", i, err)
+		}
+		res = append(res, ls)
+	}
+	return res, nil
+}
+
 type poolItem struct {
 	Entries     []gen.Entry
 	Built       blob.Built
@@ -215,6 +301,7 @@ type poolItem struct {
 	Landmark    string
 	Desc        string
 	HasRoot     bool
+	Packed      bool
 }
 
 // SavePool / LoadPool let the top process build the pool once and hand it to its child
@@ -222,7 +309,7 @@ type poolItem struct {
 func SavePool(path string, pool []*LayerSpec) error {
 	var items []poolItem
 	for _, l := range pool {
-		items = append(items, poolItem{l.Entries, *l.Built, l.Prioritized, l.Landmark, l.Desc, l.HasRoot})
+		items = append(items, poolItem{l.Entries, *l.Built, l.Prioritized, l.Landmark, l.Desc, l.HasRoot, l.Packed})
 	}
 	f, err := os.Create(path)
 	if err != nil {
@@ -245,7 +332,7 @@ func LoadPool(path string) ([]*LayerSpec, error) {
 	var res []*LayerSpec
 	for i := range items {
 		it := &items[i]
-		ls := &LayerSpec{Entries: it.Entries, FS: gen.Model(it.Entries), Built: &it.Built, Prioritized: it.Prioritized, Landmark: it.Landmark, Desc: it.Desc, HasRoot: it.HasRoot}
+		ls := &LayerSpec{Entries: it.Entries, FS: gen.Model(it.Entries), Built: &it.Built, Prioritized: it.Prioritized, Landmark: it.Landmark, Desc: it.Desc, HasRoot: it.HasRoot, Packed: it.Packed}
 		ls.Files = ls.FS.RegularFiles()
 		res = append(res, ls)
 	}
